@@ -473,7 +473,7 @@ def system_family(ctx, catname="MCCat", quick_idx="QuickIdx", relabel=None, extr
                                       spec="SysSpec")
     ctx.add_mc(st2)
     # 3. longer random histories on two buffers, drawn by the harness over the same catalogue (code -> spec direction)
-    nsim = 4000 if ctx.quick else 60000
+    nsim = 4000 if ctx.quick else 20000
     log("MCSystem: design %d states; %d exhaustive histories; %d random histories" % (st["distinct"], len(cases), nsim))
     sim = []
     # 4. capacity sweep: every spare capacity 0..460 x prefix {0, 3 bytes} for every item, then a second marshal into the grown buffer
